@@ -242,15 +242,42 @@ def run_impl(case):
         trial("dict_mixed_n", mixed)
         mixed1 = {k: (batch([one])[k] if j == 0 else np.asarray(one[k])) for j, k in enumerate(keys)}
         trial("dict_mixed_1", mixed1)
-    # training-path features for the same observations (what the update sees): replay / rollout buffers hold policy-layout arrays
+    # float32 copies of images given to predict() for a uint8 image space must be scaled like the uint8 originals
+    if has_img:
+        def as_float(o, space_):
+            if isinstance(space_, spaces.Dict):
+                return {k: as_float(o[k], space_[k]) for k in space_.spaces}
+            return np.asarray(o).astype(np.float32) if is_image_space(space_) else o
+
+        trial("float_image_single", as_float(one, pspace))
+        trial("float_image_batchn", as_float(batch(many), pspace))
+    # training-path features for the same observations, THROUGH THE BUFFER the algorithm trains from:
+    # RolloutBuffer / DictRolloutBuffer hold float32 copies, ReplayBuffer / DictReplayBuffer keep the space's dtype
     train_feat = None
+    train_dtype = None
     try:
+        if algo in ("PPO", "A2C"):
+            buf = type(model.rollout_buffer)(n, pspace, ac, device="cpu", n_envs=1)
+            for o in many:
+                o1 = {k: np.asarray(v)[None] for k, v in o.items()} if isinstance(o, dict) else np.asarray(o)[None]
+                buf.add(o1, np.asarray(ac.sample())[None], np.zeros(1, dtype=np.float32), np.zeros(1, dtype=np.float32), th.zeros(1), th.zeros(1))
+            buf.compute_returns_and_advantage(th.zeros(1), np.zeros(1, dtype=bool))
+            next(iter(buf.get(None)))                      # flattens the arrays, as train() does
+            samples = buf._get_samples(np.arange(n))
+        else:
+            buf = type(model.replay_buffer)(n + 1, pspace, ac, device="cpu", n_envs=1)
+            for o in many:
+                o1 = {k: np.asarray(v)[None] for k, v in o.items()} if isinstance(o, dict) else np.asarray(o)[None]
+                buf.add(o1, o1, np.asarray(ac.sample())[None], np.zeros(1, dtype=np.float32), np.zeros(1, dtype=bool), [{}])
+            samples = buf._get_samples(np.arange(n))
+        obs_t = samples.observations
+        first = next(iter(obs_t.values())) if isinstance(obs_t, dict) else obs_t
+        train_dtype = str(first.dtype)
         del feats[:]
-        obs_t = batch(many)
-        obs_t = {k: th.as_tensor(v) for k, v in obs_t.items()} if isinstance(obs_t, dict) else th.as_tensor(obs_t)
         with th.no_grad():
             if algo in ("PPO", "A2C"):
-                pol.predict_values(obs_t)
+                acts = samples.actions.long().flatten() if isinstance(ac, spaces.Discrete) else samples.actions
+                pol.evaluate_actions(obs_t, acts)
             elif algo == "DQN":
                 pol.q_net(obs_t)
             else:
@@ -277,18 +304,28 @@ def run_impl(case):
             return a.astype(np.float32) / 255.0
         return a.astype(np.float32)
 
+    def canon(space_, f, exp):
+        """buffers keep Discrete observations as (n, 1): the one-hot features are then (n, 1, k), flattened by the extractor"""
+        f = np.asarray(f)
+        if isinstance(space_, (spaces.Discrete, spaces.MultiDiscrete)) and f.ndim == exp.ndim + 1 and f.shape[1] == 1:
+            f = f.reshape(f.shape[0], -1)
+        return f
+
     def check_feat(tag, got, obs_batch):
         if got is None:
             return
         if isinstance(pspace, spaces.Dict):
             for k in pspace.spaces:
                 exp = expected_features(pspace[k], obs_batch[k])
+                if got.get(k) is not None:
+                    got[k] = canon(pspace[k], got[k], exp)
                 if got.get(k) is None or got[k].shape != exp.shape or not np.array_equal(got[k], exp):
-                    feat_probs.append(("oracle-features", f"{tag}: features of key {k} are not the {'one-hot' if isinstance(pspace[k], spaces.Discrete) else 'scaled'} encoding of the observation"))
+                    feat_probs.append(("oracle-image-scaling-training-vs-prediction" if tag.startswith("training path") and is_image_space(pspace[k]) else "oracle-features", f"{tag}: features of key {k} are not the {'one-hot' if isinstance(pspace[k], spaces.Discrete) else 'scaled'} encoding of the observation"))
         else:
             exp = expected_features(pspace, obs_batch)
+            got = canon(pspace, got, exp)
             if got.shape != exp.shape or not np.array_equal(got, exp):
-                kind = "oracle-one-hot" if isinstance(pspace, (spaces.Discrete, spaces.MultiDiscrete)) else ("oracle-image-scaling" if is_image_space(pspace) else "oracle-features")
+                kind = "oracle-image-scaling-training-vs-prediction" if tag.startswith("training path") and is_image_space(pspace) else "oracle-one-hot" if isinstance(pspace, (spaces.Discrete, spaces.MultiDiscrete)) else ("oracle-image-scaling" if is_image_space(pspace) else "oracle-features")
                 feat_probs.append((kind, f"{tag}: network input {str(got.reshape(-1)[:8].tolist())} is not the expected encoding {str(exp.reshape(-1)[:8].tolist())} of the observation"))
 
     bm = batch(many)
@@ -296,14 +333,14 @@ def run_impl(case):
         got = rec.pop("feat", None)
         gotd = rec.pop("feat_dict", None)
         g = gotd if isinstance(pspace, spaces.Dict) else got
-        if rec["name"] in ("batchn", "alt_layout_batchn") and "exception" not in rec:
+        if rec["name"] in ("batchn", "alt_layout_batchn", "float_image_batchn") and "exception" not in rec:
             check_feat("predict(" + rec["name"] + ")", g, bm)
-        if rec["name"] in ("single", "alt_layout_single") and "exception" not in rec:
+        if rec["name"] in ("single", "alt_layout_single", "float_image_single") and "exception" not in rec:
             check_feat("predict(" + rec["name"] + ")", g, batch([one]))
     if isinstance(train_feat, str):
         feat_probs.append(("oracle-training-features", train_feat))
     elif train_feat is not None:
-        check_feat("training path", train_feat, bm)
+        check_feat(f"training path (samples of {type(buf).__name__}, observations stored as {train_dtype})", train_feat, bm)
 
     def space_desc(sp):
         if isinstance(sp, spaces.Dict):
@@ -382,9 +419,9 @@ def judge(case, impl, vals):
         if t["out_shape"] != greedy[1:]:
             probs.append(("model-correspondence-shape", f"{where}: predict returned shape {t['out_shape']}, model {greedy[1:]}"))
         # ---- oracle from the property text ----
-        wellformed = name in ("single", "single_stochastic", "batch1", "batchn", "python_int", "eps_single", "eps_batchn", "alt_layout_single", "alt_layout_batchn")
+        wellformed = name in ("single", "single_stochastic", "batch1", "batchn", "python_int", "eps_single", "eps_batchn", "alt_layout_single", "alt_layout_batchn", "float_image_single", "float_image_batchn")
         if wellformed:
-            batched = name in ("batch1", "batchn", "eps_batchn", "alt_layout_batchn")
+            batched = name in ("batch1", "batchn", "eps_batchn", "alt_layout_batchn", "float_image_batchn")
             nb = 1 if name == "batch1" else case["n"]
             want = ([nb] if batched else []) + ash
             if t["out_shape"] != want:
@@ -398,7 +435,7 @@ def judge(case, impl, vals):
         if not t["params_unchanged"]:
             probs.append(("oracle-parameters-mutated", f"{where}: policy parameters changed during predict"))
     for t in impl["trials"]:
-        if "exception" in t and t["name"] in ("single", "single_stochastic", "batch1", "batchn", "python_int", "eps_single", "eps_batchn", "alt_layout_single", "alt_layout_batchn"):
+        if "exception" in t and t["name"] in ("single", "single_stochastic", "batch1", "batchn", "python_int", "eps_single", "eps_batchn", "alt_layout_single", "alt_layout_batchn", "float_image_single", "float_image_batchn"):
             probs.append(("oracle-wellformed-input-rejected", f"{t['name']} (input shape {t['in_shape']}): {t['exception']}"))
     probs += [tuple(p) for p in impl["feat_probs"]]
     if ps["kind"] == "discrete":
